@@ -146,6 +146,8 @@ def structural_programs():
             [{"Id_1": 1, "Me_1": 1.5, "Me_2": 2, "At_1": "x"}, {"Id_1": 2, "Me_1": 2.5, "Me_2": None, "At_1": None}])
     d2 = DS("DS_2", [("Id_1", "Integer", ID), ("Id_2", "Date", ID), ("Me_1", "Number", ME, False), ("Me_3", "Boolean", ME)],
             [{"Id_1": 1, "Id_2": "2020-01-31", "Me_1": 10.0, "Me_3": True}, {"Id_1": 3, "Id_2": "2020-02-29", "Me_1": 30.0, "Me_3": None}])
+    d1b = DS("DS_1B", [("Id_1", "Integer", ID), ("Me_1", "Number", ME, False), ("Me_2", "Integer", ME)],
+             [{"Id_1": 7, "Me_1": 7.5, "Me_2": 70}, {"Id_1": 8, "Me_1": 8.25, "Me_2": None}])
     S = [
         ("no-id-copy", "DS_r <- DS_0;", [d0]), ("no-id-calc", "DS_r <- DS_0[calc Me_3 := Me_1 + 1];", [d0]),
         ("cast-ds", "DS_r <- cast(DS_1[keep Me_1], integer);", [d1]), ("cast-comp", "DS_r <- DS_1[calc Me_4 := cast(Me_2, string)];", [d1]),
@@ -161,10 +163,12 @@ def structural_programs():
         ("full-join", "DS_r <- full_join(DS_1 as a, DS_1 as b keep a#Me_1, b#Me_2);", [d1]),
         ("union", "DS_r <- union(DS_1, DS_1[filter Me_1 > 2]);", [d1]),
         # operands whose physical column order differs from the declared component order (keep lists measures in another order)
-        ("union-reordered-first", "DS_r <- union(DS_1[keep Me_2, Me_1], DS_1[drop At_1][filter Me_1 > 2]);", [d1]),
-        ("union-reordered-second", "DS_r <- union(DS_1[drop At_1][filter Me_1 > 2], DS_1[keep Me_2, Me_1]);", [d1]),
+        ("union-reordered-first", "DS_r <- union(DS_1[keep Me_2, Me_1], DS_1B);", [d1, d1b]),
+        ("union-reordered-second", "DS_r <- union(DS_1B, DS_1[keep Me_2, Me_1]);", [d1, d1b]),
+        ("union-reordered-via-statement", "A := DS_1[keep Me_2, Me_1]; DS_r <- union(A, DS_1B, DS_1B[calc Me_1 := Me_1 + 1]);", [d1, d1b]),
         ("intersect-reordered", "DS_r <- intersect(DS_1[keep Me_2, Me_1], DS_1[drop At_1]);", [d1]),
-        ("setdiff-reordered", "A := DS_1[keep Me_2, Me_1]; DS_r <- setdiff(A, DS_1[drop At_1][filter Me_1 > 2]);", [d1]),
+        ("symdiff-reordered", "DS_r <- symdiff(DS_1[keep Me_2, Me_1], DS_1B);", [d1, d1b]),
+        ("setdiff-reordered", "A := DS_1[keep Me_2, Me_1]; DS_r <- setdiff(A, DS_1B);", [d1, d1b]),
         ("binary-reordered", "A := DS_1[keep Me_2, Me_1]; DS_r <- A + DS_1[drop At_1];", [d1]),
         ("join-reordered", "A := DS_1[keep Me_2, Me_1]; DS_r <- inner_join(A as a, DS_2 as b using Id_1 keep a#Me_2, b#Me_3);", [d1, d2]),
         ("aggr-reordered", "A := DS_2[keep Me_3, Me_1]; DS_r <- max(A group by Id_1);", [d2]),
